@@ -359,10 +359,13 @@ package bluemonday
 //@   modifies r :: exists e *regexp.Regexp :: e in abp.p.elsMatchingAndAttrs && r == ref(abp.p.elsMatchingAndAttrs[e])
 //@   ensures result == abp.p && wfp(abp.p) && abp.p.initialized
 //@   ensures[C17] forall e *regexp.Regexp :: old(e in abp.p.elsMatchingAndAttrs) ==> e in abp.p.elsMatchingAndAttrs
+//@   ensures[C17] forall e *regexp.Regexp, a string, j int :: old(e in abp.p.elsMatchingAndAttrs && a in abp.p.elsMatchingAndAttrs[e] && 0 <= j && j < len(abp.p.elsMatchingAndAttrs[e][a])) ==> (a in abp.p.elsMatchingAndAttrs[e] && j < len(abp.p.elsMatchingAndAttrs[e][a]) && abp.p.elsMatchingAndAttrs[e][a][j] == old(abp.p.elsMatchingAndAttrs[e][a][j]))
 //@   loop 0 "for _, attr := range abp.attrNames"
 //@     invariant wfb(abp) && abp.p == old(abp.p) && abp.p.elsMatchingAndAttrs == old(abp.p.elsMatchingAndAttrs) && abp.attrNames == old(abp.attrNames) && abp.regexp == old(abp.regexp) && abp.allowEmpty == old(abp.allowEmpty)
 //@     invariant forall e *regexp.Regexp :: e in abp.p.elsMatchingAndAttrs ==> (old(e in abp.p.elsMatchingAndAttrs) && abp.p.elsMatchingAndAttrs[e] == old(abp.p.elsMatchingAndAttrs[e])) || fresh(abp.p.elsMatchingAndAttrs[e])
 //@     invariant[C17] forall e *regexp.Regexp :: old(e in abp.p.elsMatchingAndAttrs) ==> e in abp.p.elsMatchingAndAttrs
+//@     invariant[C17] forall e *regexp.Regexp, a string, j int :: old(e in abp.p.elsMatchingAndAttrs && a in abp.p.elsMatchingAndAttrs[e] && 0 <= j && j < len(abp.p.elsMatchingAndAttrs[e][a])) ==> (a in abp.p.elsMatchingAndAttrs[e] && j < len(abp.p.elsMatchingAndAttrs[e][a]) && abp.p.elsMatchingAndAttrs[e][a][j] == old(abp.p.elsMatchingAndAttrs[e][a][j]))
+//@     invariant forall e *regexp.Regexp, a string :: e in abp.p.elsMatchingAndAttrs && a in abp.p.elsMatchingAndAttrs[e] ==> arr(abp.p.elsMatchingAndAttrs[e][a]) == nil || allocated(arr(abp.p.elsMatchingAndAttrs[e][a]))
 
 //@ func (*bluemonday.Policy).AllowStyles
 //@   reveal wfRegex, wfInner, wfURLPols
